@@ -13,6 +13,7 @@ import (
 	"path/filepath"
 	"strings"
 	"testing"
+	"time"
 
 	"github.com/vx-labs/mqtt-protocol/packet"
 	"pgregory.net/rapid"
@@ -323,5 +324,102 @@ func TestLong(t *testing.T) {
 			c.Msgs = append(c.Msgs, Msg{Pub: i % 2, Topic: topicsPool[i%len(topicsPool)], QoS: byte(i % 3), Size: 8})
 		}
 		check(t, c, "long")
+	}
+}
+
+// TestStalledSubscriber: back-pressure. A subscriber stays connected but stops reading (its
+// transport buffers are full: the broker's writes to it block) for StallS seconds of real
+// time while a publisher keeps publishing at QoS 1 and is acknowledged for every message (the
+// log accepts them; the delivery side is what is stuck). When the subscriber reads again,
+// every acknowledged message must still reach it and the other subscribers.
+func TestStalledSubscriber(t *testing.T) {
+	stall := time.Duration(ev.Scale(12, 40)) * time.Second
+	si, sn := ev.Shard()
+	for di, during := range []int{40, 90} {
+		if di%sn != si {
+			continue
+		}
+		c := map[string]interface{}{"scenario": "subscriber stops reading, publisher goes on", "stall_s": stall.Seconds(), "publishes_during_stall": during}
+		ev.Case(true, c, "stalled-subscriber")
+		cl, err := sim.NewCluster()
+		if err != nil {
+			t.Fatalf("VERIF-INCONCLUSIVE %v", err)
+		}
+		func() {
+			defer cl.Close()
+			n, err := cl.AddNode(sim.NodeOpts{})
+			if err != nil {
+				t.Fatalf("VERIF-INCONCLUSIVE %v", err)
+			}
+			mk := func(name string, sub bool, q byte) *sim.Client {
+				k := cl.NewClient(name)
+				k.AttachTo(n)
+				k.Send(sim.EncConnect(sim.ConnectOpts{ClientID: name, KeepAlive: 6000}))
+				if sub {
+					k.Send(sim.EncSubscribe(1, []string{"s/#"}, []byte{q}))
+				}
+				return k
+			}
+			slow, other, pub := mk("slow", true, 1), mk("other", true, 0), mk("pub", false, 0)
+			if err := cl.Settle(); err != nil {
+				ev.Inconclusive(t, err.Error())
+				return
+			}
+			total := 0
+			publish := func(k int) {
+				for i := 0; i < k; i++ {
+					total++
+					pub.Send(sim.EncPublish("s/x", []byte(fmt.Sprintf("m%d", total)), 1, false, false, uint16(total)))
+				}
+			}
+			acked := func() int {
+				pub.Pump()
+				return pub.Count(sim.PUBACK)
+			}
+			publish(5)
+			if err := cl.Settle(); err != nil {
+				ev.Inconclusive(t, err.Error())
+				return
+			}
+			slow.Conn.StallWrites(true)
+			t0 := time.Now()
+			publish(during)
+			for time.Since(t0) < stall {
+				acked()
+				other.Pump()
+				time.Sleep(20 * time.Millisecond)
+			}
+			nAcked := acked()
+			slow.Conn.StallWrites(false)
+			cl.SettleBudget = 60 * time.Second
+			if err := cl.Settle(); err != nil {
+				ev.Inconclusive(t, err.Error())
+				return
+			}
+			nAcked = acked()
+			for _, k := range []*sim.Client{slow, other} {
+				got := map[string]int{}
+				for _, p := range k.Publishes() {
+					got[p.Payload]++
+				}
+				for i := 1; i <= total; i++ {
+					if pub.Has(sim.PUBACK, uint16(i)) && got[fmt.Sprintf("m%d", i)] == 0 {
+						ev.Fail(t, "stalled-subscriber", c, "message m%d was acknowledged to the publisher (%d of %d acknowledged) but never reached subscriber %q after it resumed reading (stalled for %v)", i, nAcked, total, k.Name, stall)
+						return
+					}
+				}
+			}
+			if nAcked != total {
+				ev.Fail(t, "stalled-subscriber", c, "only %d of %d publishes were acknowledged although the log accepted them", nAcked, total)
+			}
+		}()
+	}
+}
+
+func init() {
+	kinds["stalled-subscriber"] = func(t ev.TB, raw json.RawMessage) {
+		if tt, ok := t.(*testing.T); ok {
+			TestStalledSubscriber(tt)
+		}
 	}
 }
